@@ -46,6 +46,10 @@
 
 //Runqueue length
 #define INITIAL_QUEUE_SIZE (65536*2)
+#if defined(MYTH_VERIF) && defined(MYTH_VERIF_QUEUE_SIZE)
+#undef INITIAL_QUEUE_SIZE
+#define INITIAL_QUEUE_SIZE MYTH_VERIF_QUEUE_SIZE
+#endif
 
 //Wrap and multipelx I/O functions
 #define MYTH_WRAP_SOCKIO 0
